@@ -621,6 +621,12 @@ class CompilerPassGenerateCode(CompilerPass):
                         value._dev_id._id = target.name
                     elif isinstance(value._dev_id._id, IC10Register):
                         value._dev_id._id._is_intermediate = False
+                        # the register with the device id stays in use as long as
+                        # the device is accessed under its name
+                        sym_data = self.data.get_sym_data(target)
+                        value._dev_id._id.nodes_alias.extend(
+                            sym_data.nodes_reading + sym_data.nodes_writing
+                        )
 
                 structures = self.data.structures
                 scope_name = get_scope_name(target)
